@@ -118,6 +118,32 @@ theorem bgCompat_of_code (n : ℕ) (groups : Option Groups) (m : ℕ) (hm : m = 
           · exact h
           · exact fun r hrc hrs => h r hrs hrc
 
+/-- **why `BgCompat` is a hypothesis** (witness, outside the property's quantifier: a CUSTOM
+background mode).  Background mode 4 with groups `[[0], [1]]` cutting the cluster `{0, 1}`: the
+residual reads the background of feature 0 only, so it does not depend on coordinate 1 of the vector
+(derivative 0), while `jacobian` returns the equal shares `(-1, -1)`.  (No feature is active here, the
+objective is `(1 - b₀)²`.)  Replayed on the real code (`design-notes/C15_bg_custom_witness.py`:
+gauss 2-D, two features in one cluster, `param_mode background = 4`, `groups = [[[0, 1]], [[0], [1]]]`):
+`jacobian = [-0.1276, -0.1276]`, central differences of `residual` = `[-0.2553, 0.0]`. -/
+theorem jacobian_bg_custom_witness :
+    let frames : List (Frame ℝ) :=
+      [{ indices := [0, 1], act := fun _ _ => false, L := 1, pixels := [⟨0, [0, 0], 1⟩] }]
+    jacobian .iso2 .gauss 2 1 2 (some [[[0, 1]], [[0], [1]]]) [4, 0, 0, 0, 0]
+        [[0, 0], [1, 1], [0, 0], [0, 0], [1, 1]] frames [0, 0] = some [-1, -1] ∧
+    (∀ u : ℝ, objective .iso2 .gauss 2 1 2 (some [[[0, 1]], [[0], [1]]]) [4, 0, 0, 0, 0]
+        [[0, 0], [1, 1], [0, 0], [0, 0], [1, 1]] frames [0, u] = some 1) ∧
+    ¬ BgCompat (kind (some [[[0, 1]], [[0], [1]]]) 4) [[0, 1]] := by
+  intro frames
+  refine ⟨?_, ?_, ?_⟩
+  · simp [frames, jacobian, unpack, unpackCols, unpackCol, kind, setGroups, setAll, transpose,
+      List.range, List.range.loop, scatter, clusterOf, featsOf, mkFeat, gradRows, gradBg, gradRow,
+      diffAt, bgOf, lsum_real, pack, packCols, packCol, sumOp, gather, Geo.nShape, List.zipIdx]
+  · intro u
+    simp [frames, objective, unpack, unpackCols, unpackCol, kind, setGroups, setAll, transpose,
+      List.range, List.range.loop, clusterOf, featsOf, mkFeat, Lsq.residual, clusterRes,
+      diffAt, bgOf, lsum_real, Lsq.sq, Geo.nShape, List.zipIdx]
+  · simp [kind, BgCompat]
+
 /-- **unpack looks at `params` only through its constant columns** (model-level counterpart of the
 repaired truncation defect: the start values of the parameters being optimised - and their dtype -
 cannot influence `vect_to_params`).  For every vector, every assignment of modes and every grouping
